@@ -68,11 +68,11 @@ impl OpReturn {
                     0 <= it1.index@ < block.txs@.len(), *tx == block.txs@[it1.index@ as int],
                     //# C16:inv_one_line_per_nonempty_opreturn_output_in_output_order
                     stdout__.lines@ =~= lines0 + tx_lines(block_height, *tx, it2.index@ as int),
-//@before `for out in tx.value.outputs.iter() {`
+//@before `for out in tx`
             let ghost lines0 = stdout__.lines@;
             assert(*tx == block.txs@[it1.index@ as int]);
             assert(lines0 + tx_lines(block_height, *tx, 0) =~= lines0);
-//@before `if let ScriptPattern::OpReturn(data) = &out.script.pattern {`
+//@before `if let ScriptPattern`
                 let ghost l1 = stdout__.lines@;
                 let ghost j = it2.index@ as int;
                 assert(*out == tx.value.outputs@[j]);
